@@ -1,10 +1,10 @@
-import AioslskVerif.Proofs.PeerConnect
+import AioslskVerif.Proofs.PeerWire
 import AioslskVerif.Proofs.Conn
 /-!
 # C11 — connecting to a peer succeeds iff a path works, and leaves nothing behind
 
 Property theorems only (models: `Model/PeerConnect.lean`, `Model/Conn.lean`; helpers: `Proofs/PeerConnect.lean`,
-`Proofs/Conn.lean`).  The model is the code **with** `fixes/C10-connect-cancel-or-closed.patch`,
+`Proofs/PeerWire.lean`, `Proofs/Conn.lean`).  The model is the code **with** `fixes/C10-connect-cancel-or-closed.patch`,
 `fixes/C11-attempt-cleanup.patch`, `fixes/C11-pierce-coincidence.patch`, `fixes/C11-listener-windows.patch`,
 `fixes/C11-disconnect-cancel-safe.patch` and `fixes/C11-race-cancel-orphan.patch` applied.
 
@@ -17,7 +17,12 @@ timer, cancellation of the request, **and `note n`: the application listeners of
 connection being accepted, of the winner being closed) have returned** — including completions that arrive
 after the request has finished.  Between a notification and its `note` the task that emitted it is suspended
 inside a listener; every other op may come in between, so the theorems cover every completion and every
-cancellation landing while any listener invocation along the connect paths is suspended.
+cancellation landing while any listener invocation along the connect paths is suspended.  `pierce o`: the peer comes
+in on our clear (`o = false`) or obfuscated listening port; `probe`: the caller uses the connection it was given.
+
+`xrun typ dialObf mode lookup srvFail ops` is the same run together with the wire-level state of the connection
+objects (`X`): requested type `P` / `D` / `F`, whether the dialled port is an obfuscated one, `obfuscated` /
+`connection_state` / reader task of each object, and the encoding PeerInit went out in (`C11_wire_*`).
 -/
 namespace AioslskVerif.C11
 open AioslskVerif.PeerConnect
@@ -121,31 +126,102 @@ theorem C11_connect_back (ops : List Conn.Op) (c : Conn.Conn) (hc : c ∈ (Conn.
   · exact Or.inr (Or.inl he)
   · exact Or.inr (Or.inr he)
 
+/-! ### The far end: "initialised, usable" as the peer sees it -/
+
+/-- The wire-level run is the run the theorems above are about: every `C11_*` statement on `run` holds of `(xrun …).s`. -/
+theorem C11_wire_projection (t : CT) (o : Bool) (m : Mode) (l f : Bool) (ops : List Op) :
+    (xrun t o m l f ops).s = run m l f ops := xrun_s t o m l f ops
+
+/-- Whenever PeerInit has reached the peer — whatever was delivered before, in between and after, for every
+connection type — it went out in the encoding of the port that was dialled (obfuscated on an obfuscated port, in clear on a
+clear one): a peer that follows the protocol can read it.  Before that nothing has been written. -/
+theorem C11_wire_peer_reads_init (t : CT) (o : Bool) (m : Mode) (l f : Bool) (ops : List Op) :
+    let x := xrun t o m l f ops
+    (x.s.ps = true → x.initEnc = some o) ∧ (x.s.ps = false → x.initEnc = none) := by
+  intro x
+  obtain ⟨hw, _, _, ho⟩ := xrun_inv t o m l f ops
+  have h := hw.enc
+  constructor
+  · intro hp; rw [show x.initEnc = _ from h, show x.s.ps = true from hp, show x.dialObf = o from ho]; rfl
+  · intro hp; rw [show x.initEnc = _ from h, show x.s.ps = false from hp]; rfl
+
+/-- What the request returns is usable at the far end.  Direct connection: the peer has read PeerInit, the connection has
+left AWAITING_INIT, from now on it obfuscates / de-obfuscates exactly when the protocol says so for its type and the
+dialled port (`P` on an obfuscated port: yes; `D`, `F`, any clear port: no), and incoming bytes go to the reader task
+(`P`, `D`) or are left to the caller (`F`).  Pierced connection: the same with respect to the listening port the peer came
+in on. -/
+theorem C11_wire_returned_usable (t : CT) (o : Bool) (m : Mode) (l f : Bool) (ops : List Op) :
+    let x := xrun t o m l f ops
+    (x.s.res = .returnedD → x.initEnc = some o ∧ txOK t o x.dw = true ∧ rxOK t o x.dw = true) ∧
+    (x.s.res = .returnedI → txOK t x.iObf x.iw = true ∧ rxOK t x.iObf x.iw = true) := by
+  intro x
+  obtain ⟨hw, hg, ht, ho⟩ := xrun_inv t o m l f ops
+  obtain ⟨hr, _, _, _, _⟩ := good_facts hg
+  obtain ⟨hD, hI, hDok, hIok⟩ := hr
+  constructor
+  · intro h
+    have hps : x.s.ps = true := (hDok (hD.mp h)).2
+    have hdw : x.dw = finalize t (Wire.fresh o) := by
+      rw [show x.dw = _ from hw.dw, show x.s.ps = true from hps, show x.typ = t from ht, show x.dialObf = o from ho]; rfl
+    refine ⟨(C11_wire_peer_reads_init t o m l f ops).1 hps, ?_, ?_⟩
+    · rw [hdw]; cases t <;> cases o <;> rfl
+    · rw [hdw]; cases t <;> cases o <;> rfl
+  · intro h
+    have hic : x.s.ic = true := hIok (hI.mp h).1
+    have hiw : x.iw = finalize t (Wire.fresh x.iObf) := by
+      rw [show x.iw = _ from hw.ic hic, show x.typ = t from ht]
+    constructor
+    · rw [hiw]; cases t <;> cases x.iObf <;> rfl
+    · rw [hiw]; cases t <;> cases x.iObf <;> rfl
+
+/-- `probe` (the caller sends one message and is sent one) succeeds both ways on every connection a request returns. -/
+theorem C11_wire_probe_succeeds (t : CT) (o : Bool) (m : Mode) (l f : Bool) (ops : List Op) :
+    let x := xrun t o m l f ops
+    (x.s.res = .returnedD ∨ x.s.res = .returnedI) → usable x = some (true, true) := by
+  have hinv := xrun_inv t o m l f ops
+  have hU := C11_wire_returned_usable t o m l f ops
+  generalize xrun t o m l f ops = x at hinv hU ⊢
+  obtain ⟨_, _, ht, ho⟩ := hinv
+  obtain ⟨hD, hI⟩ := hU
+  show (x.s.res = .returnedD ∨ x.s.res = .returnedI) → usable x = some (true, true)
+  intro h
+  rcases h with h | h
+  · obtain ⟨h1, h2, h3⟩ := hD h
+    simp [usable, h, ht, ho, h1, h2, h3]
+  · obtain ⟨h2, h3⟩ := hI h
+    simp [usable, h, ht, h2, h3]
+
+/-- Connect-back: the PeerPierceFirewall we write goes out in the encoding of the port the asking peer told us to dial, and
+the connection is then usable by the protocol's rule for its type. -/
+theorem C11_wire_connect_back (t : CT) (o : Bool) :
+    (connectBackWire t o).1 = o ∧ txOK t o (connectBackWire t o).2 = true ∧ rxOK t o (connectBackWire t o).2 = true := by
+  cases t <;> cases o <;> exact ⟨rfl, rfl, rfl⟩
+
 /-! Non-vacuity -/
 
 -- race: the direct attempt wins (no listener suspends: each notification is acknowledged at once) while the indirect
 -- one waits; both waiters are gone; a late pierce is accepted, found unowned and closed again
-example : (run .race false false [.note .dConnecting, .connectOk true, .note .dConnected, .note .dInit, .pierce,
+example : (run .race false false [.note .dConnecting, .connectOk true, .note .dConnected, .note .dInit, .pierce false,
       .note .aConnected, .note .aClosing, .note .aClosed]) =
     { mode := .race, srvFail := false, cr := false, d := .ok, i := .cancelled, a := .none, dc := .open, ic := false,
       ps := true, tw := false, rw := false, aw := false, res := .returnedD } := by decide
 -- race, the class of seeded/C11-f: the peer pierces while listeners are being told that the direct socket is CONNECTED:
 -- the direct attempt is cancelled inside that listener and closes its connection (CLOSING, CLOSED notifications)
-example : (run .race false false [.note .dConnecting, .connectOk true, .pierce, .note .aConnected, .note .aInit]) =
+example : (run .race false false [.note .dConnecting, .connectOk true, .pierce false, .note .aConnected, .note .aInit]) =
     { mode := .race, srvFail := false, cr := false, d := .cClosing, i := .ok, a := .none, dc := .open, ic := true,
       ps := false, tw := false, rw := false, aw := false, res := .pending } := by decide
-example : (run .race false false [.note .dConnecting, .connectOk true, .pierce, .note .aConnected, .note .aInit,
+example : (run .race false false [.note .dConnecting, .connectOk true, .pierce false, .note .aConnected, .note .aInit,
       .note .dClosing, .note .dClosed]) =
     { mode := .race, srvFail := false, cr := false, d := .cancelled, i := .ok, a := .none, dc := .none, ic := true,
       ps := false, tw := false, rw := false, aw := false, res := .returnedI } := by decide
 -- race: the request is cancelled while the loser is being closed (the `gather`): the winner is closed as well
-example : (run .race false false [.note .dConnecting, .pierce, .note .aConnected, .note .aInit, .cancelRequest,
+example : (run .race false false [.note .dConnecting, .pierce false, .note .aConnected, .note .aInit, .cancelRequest,
       .note .dClosed]) =
     { mode := .race, srvFail := false, cr := true, d := .cancelled, i := .wClosing, a := .none, dc := .none, ic := true,
       ps := false, tw := false, rw := false, aw := false, res := .pending } := by decide
 -- the 60 s timer fires while listeners are being told that the pierced connection is initialised: the request raises,
 -- the accept task finds the waiter gone and closes the connection
-example : (run .fallback false false [.note .dConnecting, .connectRefused, .note .dClosing, .note .dClosed, .pierce,
+example : (run .fallback false false [.note .dConnecting, .connectRefused, .note .dClosing, .note .dClosed, .pierce false,
       .note .aConnected, .indirectTimeout, .note .aInit]) =
     { mode := .fallback, srvFail := false, cr := false, d := .failed, i := .failed, a := .nClosing, dc := .none,
       ic := false, ps := false, tw := false, rw := false, aw := false, res := .raised } := by decide
@@ -163,6 +239,21 @@ example : (run .race true false []).tw = true ∧ (run .race true false []).aw =
 -- a cancelled request whose direct attempt is still inside a listener exists (hypothesis of C11_cancel_leaves_nothing)
 example : (run .fallback false false [.cancelRequest]).cr = true ∧ (run .fallback false false [.cancelRequest]).d = .cClosing ∧
     (run .fallback false false [.cancelRequest]).res = .pending := by decide
+-- the class of seeded/C11-k: a file connection to a peer that only has an obfuscated port: PeerInit goes out obfuscated,
+-- the connection then carries on in clear with no reader task (the transfer code reads the socket)
+example : let x := xrun .file true .fallback false false [.note .dConnecting, .connectOk true, .note .dConnected, .note .dInit]
+    x.s.res = .returnedD ∧ x.initEnc = some true ∧ x.dw = { obf := false, fin := true, reader := false } ∧
+      usable x = some (true, true) := by decide
+-- a `P` connection on the same port stays obfuscated and has a reader
+example : (xrun .peer true .race false false [.note .dConnecting, .connectOk true, .note .dConnected, .note .dInit]).dw =
+    { obf := true, fin := true, reader := true } := by decide
+-- a distributed connection that pierced through our obfuscated listening port: in clear after the handshake, with a reader
+example : let x := xrun .distributed false .fallback false false [.note .dConnecting, .connectRefused, .note .dClosing,
+      .note .dClosed, .pierce true, .note .aConnected, .note .aInit]
+    x.s.res = .returnedI ∧ x.iObf = true ∧ x.iw = { obf := false, fin := true, reader := true } ∧
+      usable x = some (true, true) := by decide
+-- nothing is probed before the request has returned
+example : usable (xrun .peer false .race false false [.note .dConnecting, .connectOk true]) = none := by decide
 -- connect-back that is refused reports CannotConnect
 example : (Conn.run [.new .back false false, .at 0 .connectFail]).conns.map (fun c => (c.k.att, c.evs)) =
     [(.idle, [.st .connecting .unknown, .st .closing .connectFailed, .st .closed .connectFailed, .attRes .fail, .cc])] := by
